@@ -794,6 +794,93 @@ def translate(repo):
           "Definition src_wr_close_hi : N := %d." % wr[1],
           "Definition src_wr_ok_branch : list wr_after := [%s]." % "; ".join(wr[2]), ""]
 
+    # ---- src/response.rs: write_http_response -- the head statement by statement, the shape of the body part
+    rh = dict(head=[], body=None)
+    try:
+        rsrc = read(repo, "src/response.rs")
+        raw = fn_body(rsrc, "pub async fn write_http_response")
+        # remove white space outside string literals
+        t, i, in_str = "", 0, False
+        while i < len(raw):
+            ch = raw[i]
+            if in_str:
+                t += ch
+                if ch == "\\":
+                    t += raw[i + 1]; i += 1
+                elif ch == '"':
+                    in_str = False
+            elif ch == '"':
+                in_str = True; t += ch
+            elif not ch.isspace():
+                t += ch
+            i += 1
+        WERR = {"UnwritableResponse": "WNUnwritable", "DuplicateContentTypeHeader": "WNDupContentType",
+                "DuplicateContentLengthHeader": "WNDupContentLength",
+                "DuplicateTransferEncodingHeader": "WNDupTransferEncoding", "Disconnected": "WNDisconnected"}
+        def werr(n):
+            return WERR.get(n, "WNOther")
+        LIT = r'"((?:[^"\\]|\\.)*)"'
+        def fmt_with(lit, args):
+            """positional {} become named arguments"""
+            names = {"response.code": "code", "reason_phrase(response.code)": "reason",
+                     "response.content_type.as_str()": "ctype", "header.name": "hname"}
+            out = lit
+            for a in args:
+                if a not in names or "{}" not in out:
+                    raise ValueError("format argument %r" % a)
+                out = out.replace("{}", "{%s}" % names[a], 1)
+            if "{}" in out:
+                raise ValueError("format string %r: missing argument" % lit)
+            return "[%s]" % "; ".join(parse_fmt(out))
+        FORMS = [
+            (r"if!response\.is_normal\(\)\{returnErr\(HttpError::(\w+)\);\}",
+             lambda m: "HSRejectUnlessNormal %s" % werr(m.group(1))),
+            (r"letmuthead_bytes:Vec<u8>=format!\(" + LIT + r",response\.code,reason_phrase\(response\.code\)\)\.into_bytes\(\);",
+             lambda m: "HSStatusLine %s" % fmt_with(m.group(1), ["response.code", "reason_phrase(response.code)"])),
+            (r"ifresponse\.content_type!=ContentType::None\{if!response\.headers\.get_all\(" + LIT + r"\)\.is_empty\(\)\{returnErr\(HttpError::(\w+)\);\}"
+             r"write!\(head_bytes," + LIT + r",response\.content_type\.as_str\(\)\)\.unwrap\(\);\}",
+             lambda m: "HSContentType %s %s %s" % (coq_bytes(rust_unescape(m.group(1))), werr(m.group(2)), fmt_with(m.group(3), ["response.content_type.as_str()"]))),
+            (r"ifclose\{write!\(head_bytes," + LIT + r",?\)\.unwrap\(\);\}",
+             lambda m: "HSIfClose %s" % fmt_with(m.group(1), [])),
+            (r"if!response\.headers\.get_all\(" + LIT + r"\)\.is_empty\(\)\{returnErr\(HttpError::(\w+)\);\}",
+             lambda m: "HSRejectIfPresent %s %s" % (coq_bytes(rust_unescape(m.group(1))), werr(m.group(2)))),
+            (r"ifletSome\(body_len\)=response\.body\.len\(\)\{write!\(head_bytes," + LIT + r"\)\.unwrap\(\);\}else\{write!\(head_bytes," + LIT + r"\)\.unwrap\(\);\}",
+             lambda m: "HSFraming %s %s" % (fmt_with(m.group(1), []), fmt_with(m.group(2), []))),
+            (r"forheaderin&response\.headers\{write!\(head_bytes," + LIT + r",header\.name\)\.unwrap\(\);"
+             r"head_bytes\.extend\(header\.value\.chars\(\)\.map\(\|c\|u8::try_from\(c\)\.unwrap_or\(255\)\)\);head_bytes\.extend\(b" + LIT + r"\);\}",
+             lambda m: "HSHeaders %s %s" % (fmt_with(m.group(1), ["header.name"]), coq_bytes(rust_unescape(m.group(2))))),
+            (r"head_bytes\.extend\(b" + LIT + r"\);", lambda m: "HSExtend %s" % coq_bytes(rust_unescape(m.group(1)))),
+        ]
+        SEND = r"writer\.write_all\(head_bytes\.as_slice\(\)\)\.await\.map_err\(\|_\|HttpError::Disconnected\)\?;drop\(head_bytes\);"
+        while not re.match(SEND, t):
+            for pat, mk in FORMS:
+                m = re.match(pat, t)
+                if m:
+                    rh["head"].append(mk(m)); t = t[m.end():]
+                    break
+            else:
+                raise ValueError("head statement %r" % t[:70])
+        t = t[re.match(SEND, t).end():]
+        BODY = (r"matchresponse\.body\.len\(\)\{Some\(0\)=>\{\}"
+                r"Some\(body_len\)=>\{letmutreader=AsyncReadExt::take\(response\.body\.async_reader\(\)\.await\.map_err\(HttpError::error_reading_file\)\?,body_len,\);"
+                r"letnum_copied=copy_async\(&mutreader,&mutwriter\)\.await\.map_errs\(HttpError::error_reading_response_body,\|_\|\{HttpError::Disconnected\}\)\?;"
+                r"ifnum_copied!=body_len\{returnErr\(HttpError::ErrorReadingResponseBody\(ErrorKind::UnexpectedEof,\"body is smaller than expected\"\.to_string\(\),\)\);\}\}"
+                r"None=>\{letmutreader=response\.body\.async_reader\(\)\.await\.map_err\(HttpError::error_reading_response_body\)\?;"
+                r"copy_chunked_async\(&mutreader,&mutwriter\)\.await\.map_errs\(HttpError::error_reading_response_body,\|_\|\{HttpError::Disconnected\}\)\?;\}\}"
+                r"writer\.flush\(\)\.await\.map_err\(\|_\|HttpError::Disconnected\)")
+        if not re.fullmatch(BODY, t):
+            raise ValueError("the part after the head (write_all, drop, match body.len(), flush): %r" % t[:60])
+        rh["body"] = True
+    except Exception as e:   # noqa
+        P.append("src/response.rs write_http_response: cannot translate (%s)" % e)
+        rh = dict(head=[], body=False)
+    L += ["(* src/response.rs write_http_response: the statements that build the head, in source order; the part after it",
+          "   (write_all of the head -> Disconnected, drop, match body.len() { Some(0) | Some(n): take + copy_async + length check |",
+          "   None: copy_chunked_async }, flush -> Disconnected) has the shape Model/Response.v transcribes *)",
+          "Definition src_resp_head : list head_stmt := [\n  %s]." % ";\n  ".join(rh["head"]),
+          "Definition src_resp_body_shape_ok : bool := %s." % ("true" if rh["body"] else "false"), ""]
+
+
     # ---- src/http_conn.rs: handle_http_conn_once and handle_http_conn, statement by statement
     once, loop = [], None
     try:
@@ -1008,10 +1095,10 @@ def translate(repo):
           "Definition src_request_line_regex : regex :=\n  %s." % rx[0],
           "Definition src_field_line_regex : regex :=\n  %s." % rx[1], ""]
 
-    items = [("chunk", "src/util.rs"), ("event_queue", "src/response.rs"), ("conn_buf", "src/http_conn.rs HttpConn.buf"), ("conn_guards", "src/http_conn.rs state guards"),
+    items = [("chunk", "src/util.rs"), ("event_queue", "src/response.rs event_stream"), ("conn_buf", "src/http_conn.rs HttpConn.buf"), ("conn_guards", "src/http_conn.rs state guards"),
              ("time", "src/time.rs"), ("content_type", "src/content_type.rs"), ("log_prio", "src/log/logger.rs log()"),
              ("event_fmt", "src/event.rs"), ("regex", "src/head.rs"), ("cookie", "src/cookie.rs"), ("request", "src/request.rs"),
-             ("json", "src/log/tag_value.rs"), ("jsonl", "src/log/logger.rs write_jsonl"), ("writer", "src/log/log_file_writer.rs"), ("headers", "src/headers.rs"), ("pfs", "src/log/prefix_file_set.rs"), ("token_set", "src/token_set.rs"), ("write_response", "src/http_conn.rs write_response"), ("conn_loop", "src/http_conn.rs handle_http_conn")]
+             ("json", "src/log/tag_value.rs"), ("jsonl", "src/log/logger.rs write_jsonl"), ("writer", "src/log/log_file_writer.rs"), ("headers", "src/headers.rs"), ("pfs", "src/log/prefix_file_set.rs"), ("token_set", "src/token_set.rs"), ("write_response", "src/http_conn.rs write_response"), ("conn_loop", "src/http_conn.rs handle_http_conn"), ("resp_head", "src/response.rs write_http_response")]
     L.append("(* what the translator could not read, per item (0 everywhere = the translation is complete) *)")
     for key, prefix in items:
         L.append("Definition src_problems_%s : nat := %d." % (key, sum(1 for p in P if p.startswith(prefix))))
